@@ -6,7 +6,10 @@
 //!                       "latency": bool, "universe": ["/a", ..]},
 //!         "steps": [op ..]}
 //! op (h = host index, slot = handle number chosen by the script; an op name may
-//! carry the suffix "@t" = issue it through the tokio shim):
+//! carry the suffix "@t" = issue it through the tokio shim; write_at / read_at / sync_all may carry
+//! "@u" = submit it through io_uring (IORING_OP_WRITE / READ / FSYNC) on the raw fd of the
+//! handle the std or tokio shim opened, one ring per host, the completion reaped at once;
+//! direct mode only):
 //!   ["open", h, slot, path, flags]      flags: chars of r w a t c n (+ k: tokio handle)
 //!   ["close", h, slot]
 //!   ["write_at", h, slot, off, [bytes]] ["read_at", h, slot, off, len]
@@ -35,6 +38,67 @@ use tokio::io::{AsyncReadExt, AsyncSeekExt, AsyncWriteExt};
 use turmoil_fs::shim::std::fs as sfs;
 use turmoil_fs::shim::tokio::fs as tfs;
 use turmoil_fs::{EnterCtx, Fs, FsConfig};
+use std::os::fd::AsRawFd;
+use turmoil_io_uring::host::IoUringHostState;
+use turmoil_io_uring::{opcode, types, IoUring};
+
+/// One io_uring operation on a raw fd: push, submit, let the io latency pass, reap.
+/// Returns the CQE result (>= 0: byte count / 0; < 0: -errno) and, for reads, the bytes.
+fn uring_op(
+    fs: &Arc<Mutex<Fs>>,
+    iou: &Arc<Mutex<IoUringHostState>>,
+    ring: &mut Option<Box<IoUring>>,
+    now: &mut Duration,
+    kind: &str,
+    fd: i32,
+    off: u64,
+    data: &[u8],
+    len: usize,
+) -> Value {
+    let mut buf: Box<[u8]> = if kind == "read_at" { vec![0xEEu8; len].into_boxed_slice() } else { data.to_vec().into_boxed_slice() };
+    {
+        let _g1 = turmoil_fs::enter(fs, EnterCtx { now: *now, on_corruption: None });
+        let _g2 = turmoil_io_uring::host::enter(iou, turmoil_io_uring::host::EnterCtx { now: *now });
+        if ring.is_none() {
+            *ring = Some(Box::new(IoUring::new(8).expect("ring")));
+        }
+        let r = ring.as_mut().unwrap();
+        let e = match kind {
+            "read_at" => opcode::Read::new(types::Fd(fd), buf.as_mut_ptr(), len as u32).offset(off).build(),
+            "write_at" => opcode::Write::new(types::Fd(fd), buf.as_ptr(), buf.len() as u32).offset(off).build(),
+            _ => opcode::Fsync::new(types::Fd(fd)).build(),
+        }
+        .user_data(77);
+        unsafe { r.submission().push(&e).expect("push") };
+        r.submit().expect("submit");
+    }
+    // past the largest configured io latency
+    *now += Duration::from_millis(10);
+    let _g1 = turmoil_fs::enter(fs, EnterCtx { now: *now, on_corruption: None });
+    let _g2 = turmoil_io_uring::host::enter(iou, turmoil_io_uring::host::EnterCtx { now: *now });
+    let r = ring.as_mut().unwrap();
+    let mut cq = r.completion();
+    cq.sync();
+    let Some(cqe) = cq.next() else { return json!(["err", "NoCqe", "no completion"]) };
+    let res = cqe.result();
+    if res < 0 {
+        // the shims report a wrong access mode as PermissionDenied; the ring as -EBADF
+        // (a failed Fs::sync_file - the file behind the descriptor's path is gone, known class
+        // StaleHandle - reaches the ring as -EIO, the shims as NotFound)
+        let kindname = match (res, kind) {
+            (-9, _) => "PermissionDenied".to_string(),
+            (-2, _) | (-5, "sync_all") => "NotFound".to_string(),
+            (-22, _) => "InvalidInput".to_string(),
+            _ => format!("Os{}", -res),
+        };
+        return json!(["err", kindname, format!("io_uring cqe {res}")]);
+    }
+    match kind {
+        "read_at" => json!(["ok", buf[..res as usize].to_vec()]),
+        "write_at" => json!(["ok", res]),
+        _ => json!(["ok"]),
+    }
+}
 
 enum Handle {
     Std(sfs::File),
@@ -167,6 +231,9 @@ fn run_case(case: &Value) -> Value {
     let _ = turmoil_fs::verif::take_decisions();
 
     let mut handles: HashMap<(usize, u64), Handle> = HashMap::new();
+    let ious: Vec<Arc<Mutex<IoUringHostState>>> =
+        (0..nhosts).map(|_| Arc::new(Mutex::new(IoUringHostState::new()))).collect();
+    let mut rings: Vec<Option<Box<IoUring>>> = (0..nhosts).map(|_| None).collect();
     let mut now = Duration::from_secs(1_000_000);
     let mut obs: Vec<Value> = Vec::new();
     let mut decisions: Vec<Value> = Vec::new();
@@ -185,6 +252,29 @@ fn run_case(case: &Value) -> Value {
         }
         let h = st[1].as_u64().unwrap() as usize;
         let arc = hosts[h].clone();
+        if let Some(uname) = full.strip_suffix("@u") {
+            // io_uring on the descriptor of a handle opened through one of the shims
+            let slot = st[2].as_u64().unwrap();
+            let fd = match handles.get(&(h, slot)) {
+                None => None,
+                Some(Handle::Std(f)) => Some(f.as_raw_fd()),
+                Some(Handle::Tok(f)) => Some(f.as_raw_fd()),
+            };
+            let o = match fd {
+                None => json!(["noslot"]),
+                Some(fd) => {
+                    let (off, data, len) = match uname {
+                        "write_at" => (st[3].as_u64().unwrap(), bytes(&st[4]), 0usize),
+                        "read_at" => (st[3].as_u64().unwrap(), Vec::new(), st[4].as_u64().unwrap() as usize),
+                        _ => (0, Vec::new(), 0),
+                    };
+                    uring_op(&arc, &ious[h], &mut rings[h], &mut now, uname, fd, off, &data, len)
+                }
+            };
+            obs.push(o);
+            decisions.push(decisions_json());
+            continue;
+        }
         let _g = turmoil_fs::enter(&arc, EnterCtx { now, on_corruption: None });
         let s = |i: usize| st[i].as_str().unwrap().to_string();
         let o: Value = match name {
@@ -333,13 +423,23 @@ fn run_case(case: &Value) -> Value {
                 for k in keys {
                     handles.remove(&k);
                 }
+                {
+                    let _g2 = turmoil_io_uring::host::enter(&ious[h], turmoil_io_uring::host::EnterCtx { now });
+                    rings[h] = None;
+                }
                 arc.lock().unwrap().crash();
+                ious[h].lock().unwrap().crash();
                 json!(["ok"])
             }
             other => panic!("unknown op {other}"),
         };
         obs.push(o);
         decisions.push(decisions_json());
+    }
+    for h in 0..nhosts {
+        let _g = turmoil_fs::enter(&hosts[h], EnterCtx { now, on_corruption: None });
+        let _g2 = turmoil_io_uring::host::enter(&ious[h], turmoil_io_uring::host::EnterCtx { now });
+        rings[h] = None;
     }
     // drop handles while an Fs is entered (File::drop touches the handle table)
     for ((h, _), f) in handles.drain() {
